@@ -21,7 +21,8 @@ NestAv == [sigs : {{1}, {1, 2}}, pres : {{}}, height : {3, 9}, seq : {0}, nest :
 Init == \/ stage = "pick" /\ pol \in Pols(1) /\ av \in Avails
         \/ stage = "done" /\ pol \in Nest(2) /\ av \in NestAv
 Wrap == /\ stage = "pick" /\ Depth >= 2
-        /\ \E q \in Pols(1) : \E op \in {"and", "or", "t1", "t2"} :
+        \* (the partner is a leaf: composing two depth-1 policies gives 1.8 * 10^9 states; Depth = 3 asks for that)
+        /\ \E q \in (IF Depth >= 3 THEN Pols(1) ELSE Leaves) : \E op \in {"and", "or", "t1", "t2"} :
              pol' = CASE op = "and" -> <<"and", pol, q>> [] op = "or" -> <<"or", q, pol>>
                       [] op = "t1" -> <<"thresh", 1, <<pol, q>>>> [] op = "t2" -> <<"thresh", 2, <<q, pol>>>>
         /\ stage' = "done" /\ UNCHANGED av
